@@ -357,4 +357,126 @@ def planTraceMast (c : Cfg) (pl : Plan) : List Tok :=
   pl.effects.flatMap (effToks { cfgStatus := "r.configurations.UpdateStatus" } c) ++
     (if pl.err then [.ret "err" []] else [.ret "nil" []])
 
+/-! ### the transaction reconciler (one proposal per transaction: the loops run once) -/
+
+def optFCode : Option Failure → Nat
+  | none => 0
+  | some f => fCode f + 1
+
+/-- the state a transaction invocation reads when the transaction lists ONE proposal: the
+    transaction, that proposal (`pNone`: not found), the transaction named by the proposal's
+    `PrevIndex` (`prevNone`: not found) -/
+def gTxOf (t : Tx) (pNone : Bool) (p : Proposal) (prevNone : Bool) (prevTx : Tx) : V2G :=
+  { n := fun k =>
+      match k with
+      | "transaction.Index" => t.index
+      | "transaction.Status.Phases.Initialize.State" => phCode t.init
+      | "transaction.Status.Phases.Validate.State" => phCode t.validate
+      | "transaction.Status.Phases.Commit.State" => phCode t.commit
+      | "transaction.Status.Phases.Apply.State" => phCode t.apply
+      | "transaction.Status.Phases.Abort.State" => phCode t.abort
+      | "proposal.Status.PrevIndex" => p.prev
+      | "proposal.Status.Phases.Initialize.State" => phCode p.init
+      | "proposal.Status.Phases.Validate.State" => phCode p.validate
+      | "proposal.Status.Phases.Commit.State" => phCode p.commit
+      | "proposal.Status.Phases.Apply.State" => phCode p.apply
+      | "proposal.Status.Phases.Abort.State" => phCode p.abort
+      | "proposal.Status.Phases.Validate.Failure" => optFCode p.vFailure
+      | "proposal.Status.Phases.Apply.Failure" => optFCode p.aFailure
+      | "prevTransaction.Isolation" => if prevTx.serializable then 1 else 0
+      | "prevTransaction.Status.State" => prevTx.state.rank
+      | k => constCode k
+    b := fun k =>
+      match k with
+      | "transaction.Status.Phases.Initialize != nil" => t.init != .none
+      | "transaction.Status.Phases.Validate != nil" => t.validate != .none
+      | "transaction.Status.Phases.Commit != nil" => t.commit != .none
+      | "transaction.Status.Phases.Apply != nil" => t.apply != .none
+      | "transaction.Status.Phases.Abort != nil" => t.abort != .none
+      | "proposal.Status.Phases.Validate != nil" => p.validate != .none
+      | "proposal.Status.Phases.Commit != nil" => p.commit != .none
+      | "proposal.Status.Phases.Apply != nil" => p.apply != .none
+      | "proposal.Status.Phases.Abort != nil" => p.abort != .none
+      | "err@r.proposals.Get#1" => pNone
+      | "errors.IsNotFound(err)@r.proposals.Get#1" => true
+      | "err@r.proposals.Get#2" => pNone
+      | "errors.IsNotFound(err)@r.proposals.Get#2" => true
+      | "err@r.transactions.GetByIndex#1" => prevNone
+      | "errors.IsNotFound(err)@r.transactions.GetByIndex#1" => true
+      | "allValidated" => p.validate != .opened
+      | "allCommitted" => p.commit != .opened
+      | "allApplied" => p.apply != .opened
+      | "allAborted" => p.abort != .opened
+      | _ => false }
+
+/-- the state `reconcileInitialize` (transaction) reads once the proposals are listed: the
+    transaction, its one proposal, the previous transaction of the log (`plNone`: none), the
+    transaction named by the proposal's `PrevIndex` -/
+def gTxInitOf (t : Tx) (pNone : Bool) (p : Proposal) (plNone : Bool) (pl : Tx) (prevNone : Bool) (prevTx : Tx) : V2G :=
+  { n := fun k =>
+      match k with
+      | "transaction.Index" => t.index
+      | "transaction.Status.Phases.Initialize.State" => phCode t.init
+      | "prevTransaction.Status.Phases.Initialize.State" => phCode pl.init
+      | "proposal.Status.PrevIndex" => p.prev
+      | "proposal.Status.Phases.Initialize.State" => phCode p.init
+      | "prevTransaction.Isolation" => if prevTx.serializable then 1 else 0
+      | "prevTransaction.Status.State" => prevTx.state.rank
+      | k => constCode k
+    b := fun k =>
+      match k with
+      | "transaction.Status.Proposals != nil" => true
+      | "prevTransaction.Status.Phases.Initialize != nil" => pl.init != .none
+      | "proposal.Status.Phases.Initialize != nil" => p.init != .none
+      | "err@r.transactions.GetByIndex#1" => plNone
+      | "errors.IsNotFound(err)@r.transactions.GetByIndex#1" => true
+      | "err@r.proposals.Get#3" => pNone
+      | "errors.IsNotFound(err)@r.proposals.Get#3" => true
+      | "err@r.proposals.Get#4" => pNone
+      | "errors.IsNotFound(err)@r.proposals.Get#4" => true
+      | "err@r.transactions.GetByIndex#3" => prevNone
+      | "errors.IsNotFound(err)@r.transactions.GetByIndex#3" => true
+      | "allInitialized" => !(p.init == .none || p.init == .opened)
+      | _ => false }
+
+/-- Notes.  The loop flags (`allValidated`, …) are locals: their assignments are tokens of the
+    skeleton (a dropped `= false` changes it); that a read of the flag after the loop sees what the
+    single iteration assigned is Go's semantics of a local variable, stated in the table.
+    `checked[...]` is empty in the first iteration. -/
+def txUpdToks : TxUpd → List Tok
+  | .openInit => [.set "transaction.Status.Phases.Initialize.TransactionPhaseStatus" "configapi.TransactionPhaseStatus{}"]
+  | .setProposals _ => [.setN "transaction.Status.Proposals" 0]
+  | .initFailed _ => [.misc "initFailed"]
+  | .initDone => [.setN "transaction.Status.Phases.Initialize.State" 1]
+  | .openValidate => [.set "transaction.Status.Phases.Validate.TransactionPhaseStatus" "configapi.TransactionPhaseStatus{}"]
+  | .validateFailed f => [.setN "transaction.Status.State" 4, .setN "transaction.Status.Failure" (optFCode f),
+      .set "transaction.Status.Phases.Abort.TransactionPhaseStatus" "configapi.TransactionPhaseStatus{}",
+      .setN "transaction.Status.Phases.Validate.State" 2, .setN "transaction.Status.Phases.Validate.Failure" (optFCode f)]
+  | .validateDone => [.setN "transaction.Status.State" 1, .setN "transaction.Status.Phases.Validate.State" 1]
+  | .openCommit => [.set "transaction.Status.Phases.Commit.TransactionPhaseStatus" "configapi.TransactionPhaseStatus{}"]
+  | .commitDone => [.setN "transaction.Status.State" 2, .setN "transaction.Status.Phases.Commit.State" 1]
+  | .openApply => [.set "transaction.Status.Phases.Apply.TransactionPhaseStatus" "configapi.TransactionPhaseStatus{}"]
+  | .applyFailed f => [.setN "transaction.Status.State" 4, .setN "transaction.Status.Failure" (optFCode f),
+      .setN "transaction.Status.Phases.Apply.State" 2, .setN "transaction.Status.Phases.Apply.Failure" (optFCode f)]
+  | .applyDone => [.setN "transaction.Status.State" 3, .setN "transaction.Status.Phases.Apply.State" 1]
+  | .abortDone => [.setN "transaction.Status.Phases.Abort.State" 1]
+
+def effToksTx : Effect → List Tok
+  | .tx _ _ u => txUpdToks u ++ [.write "r.updateTransactionStatus"]
+  | .prop _ _ u => propUpdToks u ++ [.write "r.updateProposalStatus"]
+  | .createProp _ => [.write "r.proposals.Create"]
+  | _ => [.misc "foreign effect"]
+
+def planTraceTx (pl : Plan) : List Tok :=
+  pl.effects.flatMap effToksTx ++
+    (if pl.err then [.ret "err" []]
+     else match pl.requeue with
+      | none => [.ret "nil" []]
+      | some (.tx i) => [.ret "requeue controller.NewID(_) nil" [i]]
+      | some _ => [.misc "requeue of a foreign kind"])
+
+/-- the flag tokens of a phase loop over one proposal whose phase pointer is `x` -/
+def flagToks (name : String) (x : Ph) : List Tok :=
+  .set name "true" :: (if x = .opened then [.set name "false"] else [])
+
 end OnosVerif.V2.Skel
